@@ -67,6 +67,13 @@ Variants == {
   <<"a ^ b ^ c", "a ^ (b ^ c)">>, <<"a - b - c", "(a - b) - c">>, <<"a ?? b ^ c", "(a ?? b) ^ c">>,
   <<"-a ^ b", "(-a) ^ b">>, <<"-a!", "-(a!)">>, <<"not a == b", "(not a) == b">>, <<"!a and b", "(!a) and b">>,
   <<"a and b == c", "a and (b == c)">>, <<"a via f + g", "a via (f + g)">>, <<"a < b + c", "a < (b + c)">>,
+  \* a conditional's else-branch takes everything to its right, whatever the operator
+  <<"if a then b else c via f", "if a then b else (c via f)">>, <<"if a then b else c into f", "if a then b else (c into f)">>,
+  <<"if a then b else c where f", "if a then b else (c where f)">>, <<"if a then b else c and d", "if a then b else (c and d)">>,
+  <<"if a then b else c + d", "if a then b else (c + d)">>, <<"if a then b else c ?? d", "if a then b else (c ?? d)">>,
+  <<"if a then b else c == d", "if a then b else (c == d)">>, <<"if a then b via f else c", "if a then (b via f) else c">>,
+  <<"if a via f then b else c", "if (a via f) then b else c">>, <<"if a then b else if c then d else e via f", "if a then b else (if c then d else (e via f))">>,
+  <<"z = a via f", "z = (a via f)">>, <<"x => x + 1 == 2", "x => ((x + 1) == 2)">>,
   <<"a .== b * c", "a .== (b * c)">>, <<"!a", "not a">>, <<"!a == b", "not a == b">>, <<"a + b via f", "(a + b) via f">>, <<"a % b * c", "(a % b) * c">>
 }
 
